@@ -60,9 +60,19 @@ Print Assumptions C07_no_orphan_files_after_recover.
 (* T1: the orders the model relies on, as the translator reads them from the source on every run
    (internal/backend/user.go newUser / deleteAllMessagesMarkedDeleted / removeState, connector_updates.go applyMessageDeleted) *)
 Theorem C07_source_orders : startup_purge_before_sweep = true /\ startup_rows_before_files = true /\
-  session_end_rows_before_files = true /\ conn_delete_releases_remote_id = true.
-Proof. exact (conj eq_refl (conj eq_refl (conj eq_refl eq_refl))). Qed.
+  session_end_rows_before_files = true /\ conn_delete_releases_remote_id = true /\
+  commit_error_always_returned = true /\ conn_create_cleanup_keeps_error = true /\ recovery_move_marks_old_copy = true.
+Proof. exact (conj eq_refl (conj eq_refl (conj eq_refl (conj eq_refl (conj eq_refl (conj eq_refl eq_refl)))))). Qed.
 Print Assumptions C07_source_orders.
+
+(* the acknowledgement matches the database: with the error propagation FOUND IN THE SOURCE (wrapTx returns every commit
+   error, the clean-up loop of applyMessagesCreated keeps the transaction's error) an operation that does not report an
+   error has run all its steps, so its effect is committed (does not type-check when one of the two facts is false) *)
+Theorem C07_success_ack_means_applied : forall op cleanup m k,
+  cs_reports_error commit_error_always_returned conn_create_cleanup_keeps_error op (cs_steps op m) k = false ->
+  cs_outcome k (cs_steps op m) cleanup m = cs_exec_op op m.
+Proof. exact (fun op cleanup m k => success_means_applied op (cs_steps op m) cleanup m k). Qed.
+Print Assumptions C07_success_ack_means_applied.
 
 (* the same statement for the start-up order FOUND IN THE SOURCE (does not type-check when newUser sweeps before it purges) *)
 Theorem C07_no_orphan_files_after_recover_src : forall m p, In p (m_store (cs_recover_ord startup_purge_before_sweep m)) ->
